@@ -241,11 +241,25 @@ func (t *taskRun) direct() {
 	case "URIRawCmp":
 		ok, e, w := sipsp.URIRawCmp(a, b, sipsp.URICmpFlags(s.N1))
 		t.out(b2i(ok), int64(e), int64(w))
+		// (result structures that were used for another comparison before: what comes back must not
+		// depend on what they held)
 		var r1, r2 sipsp.PsipURI
+		if s.N1%2 == 1 {
+			sipsp.URIParseCmp(b, a, sipsp.URICmpFlags(s.N1), &r1, &r2)
+			var x1, x2 sipsp.PsipURI
+			okx, ex, wx := sipsp.URIParseCmp(a, b, sipsp.URICmpFlags(s.N1), &x1, &x2)
+			oky, ey, wy := sipsp.URIParseCmp(a, b, sipsp.URICmpFlags(s.N1), &r1, &r2)
+			if okx != oky || ex != ey || wx != wy || (ex == 0 && (x1 != r1 || x2 != r2)) {
+				t.viol = fmt.Sprintf("influence: URIParseCmp into result structures used before = (%v,%d,%d), into new ones = (%v,%d,%d) (or the returned URIs differ)", oky, ey, wy, okx, ex, wx)
+			}
+		}
 		ok, e, w = sipsp.URIParseCmp(a, b, sipsp.URICmpFlags(s.N1), &r1, &r2)
 		t.out(b2i(ok), int64(e), int64(w))
 		// the parsed URIs it hands back are reported fields too: each must be readable against the
 		// text it was parsed from
+		if e != 0 {
+			break // a URI that failed to parse is not handed back
+		}
 		outURI(t, &r1, a)
 		if t.viol == "" {
 			outURI(t, &r2, b)
